@@ -123,6 +123,14 @@ pub fn build_world(root: &Path, world: &J) {
                 let target = if to.starts_with('/') { Path::new(to).to_path_buf() } else { root.join(to) };
                 std::os::unix::fs::symlink(target, &p).unwrap();
             }
+            "h" => {
+                // a hard link: a second name of an existing file
+                let to = root.join(n["to"].as_str().unwrap());
+                if let Some(par) = p.parent() {
+                    std::fs::create_dir_all(par).unwrap();
+                }
+                std::fs::hard_link(to, &p).unwrap();
+            }
             "p" => {
                 // a named pipe: a path that exists and is neither file, directory nor link
                 let c = std::ffi::CString::new(p.to_string_lossy().as_bytes()).unwrap();
